@@ -677,9 +677,17 @@ func init() {
 			if c05HasCycle(ss) {
 				continue
 			}
-			for _, lang := range []string{"go", "java", "php", "python", "typescript"} {
+			// chains with a full theorem: the whole chain; Java / PHP: everything but the last pass
+			// (RemoveIntersections / InlineObjectsWithTypes, for which the statement is false)
+			for _, lang := range []string{"go", "python", "typescript"} {
 				run := c05Process(c05Chain(lang), c05Copy(ss))
 				fmt.Fprintf(out, "chain %s %s\t%s\tok\t=\t\n", lang, virSchemas(ss), run.reply())
+			}
+			for _, lang := range []string{"java", "php"} {
+				ch := c05Chain(lang)
+				k := len(ch) - 1
+				run := c05Process(ch[:k], c05Copy(ss))
+				fmt.Fprintf(out, "c05prefix %s %d %s\t%s\tok\t=\t\n", lang, k, virSchemas(ss), run.reply())
 			}
 			run := c05Process(compiler.Passes{&compiler.InferEntrypoint{}}, c05Copy(ss))
 			fmt.Fprintf(out, "c05pass InferEntrypoint %s\t%s\tok\t=\t\n", virSchemas(ss), run.reply())
